@@ -163,6 +163,7 @@ def build(u):
         ensures
             final(k).loaded == old(k).loaded,
             r is Ok ==> final(k).audit == old(k).audit.remove(source_port),  // @C07.remove_audit.removes_exactly_this_port
+            r is Ok ==> old(k).loaded,
             r is Err ==> final(k).audit == old(k).audit,
             // while the BPF object is loaded and the map has the key, the record IS removed (Err only if the object is absent or the kernel call fails)
             old(k).loaded && old(k).audit.contains_key(source_port) ==> r is Ok && !final(k).audit.contains_key(source_port),  // @C07+C01.remove_audit.succeeds_on_present_record
@@ -389,6 +390,9 @@ use http_body_util::combinators::BoxBody;
 use hyper::body::{Bytes, Incoming};
 use hyper::{Request, Response};
 use tokio_util::sync::CancellationToken;
+use tokio::net::TcpStream;
+use log::Level as LoggerLevel;
+use crate::proxy::proxy_connection::ConnectionLogger;
 use tower_http::body::Limited;"""
     FN = "ProxyServer::handle_new_tcp_connection"
     it = ps.item(FN, "fn")
@@ -450,16 +454,36 @@ use tower_http::body::Limited;"""
         if ps.s(l_ctx["span"][1], l_cl0["span"][0]).strip() not in ("", ";"):
             raise Undecided("%s: statements between the construction of the context and its clone" % FN)
         u.rule("E2", "%s: call argument under cfg(windows) dropped" % FN)
-        u.slice_fn(ps, FN, "vx_slice_accept_builds_context", l_ctx["span"][0], stmt_end(l_cl0),
-                   "tcp_connection_id: u128, client_addr: std::net::SocketAddr, cloned_proxy_server: &ProxyServer, " + K,
-                   ret_type="TcpConnectionContext", is_async=True, tail="cloned_tcp_connection_context\n",
-                   replacements=[(watxt + ",", None, "")],
-                   ghost_calls=[("TcpConnectionContext::new", None, "Tracked(k)")],
+        # The slice starts at the FIRST statement of the per-connection task (the `let .. = match Self::set_stream_read_time_out(..)`),
+        # so that every exit of the task before the context exists is covered: `return;` is written `return None;` (E5), the tail is
+        # `Some(<clone handed to the service>)`.
+        sst = [c for c in it["calls"] if c["kind"] == "path" and c["callee"].replace(" ", "") == "Self::set_stream_read_time_out"]
+        if len(sst) != 1 or len(sst[0]["args"]) != 2:
+            raise Undecided("%s: expected exactly one call `Self::set_stream_read_time_out(<stream>, <logger>)`" % FN)
+        l_first = [l for l in it["lets"] if l["span"][0] <= sst[0]["span"][0] and sst[0]["span"][1] <= l["span"][1] and l["span"][1] <= l_ctx["span"][0]]
+        if len(l_first) != 1:
+            raise Undecided("%s: the call of set_stream_read_time_out is not the initialiser of one `let` before the context is built" % FN)
+        a0, a1 = (ps.s(a[0], a[1]).strip() for a in sst[0]["args"])
+        if a0 != "stream" or a1 != "&mut tcp_connection_logger":
+            raise Undecided("%s: set_stream_read_time_out is called with other arguments than (stream, &mut tcp_connection_logger)" % FN)
+        with u.impl_(ps, "ProxyServer"):
+            u.take_fn(ps, "ProxyServer::set_stream_read_time_out", external_body=True)
+        u.slice_fn(ps, FN, "vx_slice_accept_builds_context", l_first[0]["span"][0], stmt_end(l_cl0),
+                   "stream: TcpStream, tcp_connection_logger_0: ConnectionLogger, tcp_connection_id: u128, client_addr: std::net::SocketAddr, cloned_proxy_server: &ProxyServer, " + K,
+                   ret_type="Option<TcpConnectionContext>", is_async=True, tail="Some(cloned_tcp_connection_context)\n",
+                   pre_body="broadcast use axiom_fmt_error, axiom_to_string_string;\nlet mut tcp_connection_logger = tcp_connection_logger_0;\n"
+                            "proof { let p = addr_port(client_addr); if !k.audit.contains_key(p) { assert(k.audit.remove(p) =~= k.audit); } }   // map extensionality step (hint)\n",
+                   replacements=[(watxt + ",", None, ""), ("return;", "all", "return None;")],
+                   ghost_calls=[("TcpConnectionContext::new", None, "Tracked(k)"), ("remove_audit", "all", "Tracked(k)")],
                    e9=[("tcp_connection_context.clone()", None, "c: &TcpConnectionContext", "&tcp_connection_context", "TcpConnectionContext",
-                        "    ensures same_attribution(r, *c),", dict(name="vx_e9_tcp_ctx_clone", local=True, body="c.clone()"))],
-                   what="(accept path: context built for this connection's peer address and cloned for the service closure)",
+                        "    ensures same_attribution(r, *c),", dict(name="vx_e9_tcp_ctx_clone", local=True, body="c.clone()")),
+                       (ps.s(sst[0]["span"][0], sst[0]["span"][1]), None, "stream: TcpStream, l: &mut ConnectionLogger", "stream, &mut tcp_connection_logger",
+                        "Result<(TcpStream, std::net::TcpStream)>", "", dict(name="vx_e9_set_stream_read_time_out", local=True, body="ProxyServer::set_stream_read_time_out(stream, l)"))],
+                   what="(per-connection task from its first statement: every exit before the context exists, then the context built for this connection's peer address and cloned for the service closure)",
                    contract="""
-        ensures accept_post(*old(k), *final(k), client_addr, r),  // @C07.accept.service_context_is_built_from_this_connections_peer_address
+        ensures
+            r matches Some(c) ==> accept_post(*old(k), *final(k), client_addr, c),  // @C07.accept.service_context_is_built_from_this_connections_peer_address
+            r is None ==> consumed(*old(k), *final(k), addr_port(client_addr)),  // @C07.accept.every_exit_consumes_the_record
 """)
         # S2: per request, inside the service_fn closure: the captured context is cloned for the tower service closure
         l_cl1 = let_in("cloned_tcp_connection_context", cl[0]["body"][0], cl[0]["body"][1], excl=cl[1]["span"])
